@@ -58,7 +58,8 @@ def replay_box(arg):
     i3 = out["iou3"][0] / out["iou3"][1]
     cd2 = out["cd"] / 4.0
     plane = sorted(v / 8.0 for v in out["plane"])
-    for rot, shift, label in ((0, (0, 0, 0), "as-is"), (1, (0, 0, 0), "rotated-about-ego"), (3, (0, 0, 0), "rotated-about-ego"), (2, (7.0, -3.0, 2.0), "rotated+translated")):
+    for rot, shift, label in ((0, (0, 0, 0), "as-is"), (1, (0, 0, 0), "rotated-about-ego"), (3, (0, 0, 0), "rotated-about-ego"), (2, (7.0, -3.0, 2.0), "rotated+translated"),
+                              (0, (262144.0, -131072.0, 0.0), "translated-far")):   # map coordinates of a large site (exactly representable)
         n += 1
         A, B = mk(a, rot, shift), mk(b, rot, shift)
         rep = {"a": a, "b": b, "motion": label, "rot(cos,sin)": PYTH[rot], "shift": shift, "spec": out}
@@ -77,9 +78,11 @@ def replay_box(arg):
         # perturbs the corners (F11).  With yaw 0 and no common rotation the corners are exact and every mismatch is a plain violation.
         inexact = rot != 0 or a["q"] != 0 or b["q"] != 0
         degenerate = ":shared-collinear-edge-under-rotation" if (inexact and shares_collinear_edge(a, b)) else ""
-        if abs(iou2 - i2) > 1e-9 or abs(iou2_s - i2) > 1e-9:
+        # (260 km from the origin a polygon area in double precision is good to about 1e-5 only: the distances are judged there, not the overlaps)
+        tol_i = 1e-9 if label != "translated-far" else 1e-3
+        if abs(iou2 - i2) > tol_i or abs(iou2_s - i2) > tol_i:
             mism.append(("iou2d" + degenerate, "BEV IoU %r / swapped %r, specification %s" % (iou2, iou2_s, out["iou2"]), rep))
-        if abs(iou3 - i3) > 1e-9 or abs(iou3_s - i3) > 1e-9:
+        if abs(iou3 - i3) > tol_i or abs(iou3_s - i3) > tol_i:
             mism.append(("iou3d" + degenerate, "3-D IoU %r / swapped %r, specification %s" % (iou3, iou3_s, out["iou3"]), rep))
         if shift == (0, 0, 0) and not any(abs(pd * pd - v) < 1e-8 for v in plane):
             mism.append(("plane-distance", "plane distance^2 %r not among specification values %s" % (pd * pd, plane), rep))
